@@ -148,3 +148,19 @@ func badBulkClear(p *entityPool) {
 	clear(p.entities)
 	p.entities = p.entities[:1]
 }
+
+// --- C07.R11: stale element pointer ---
+
+type fxEntry struct {
+	id   int
+	list []int
+}
+
+func badStaleElement(es []fxEntry, idx int) {
+	e := &es[idx]
+	last := len(es) - 1
+	if idx != last {
+		es[idx] = es[last]
+	}
+	e.list = nil // clears the entry that was just moved in
+}
